@@ -3,6 +3,7 @@ from mireval import Evaluator, Unsupported, fmt_term, mk_int
 from models import Models
 from facts import loc
 from p_msgmap import norm, norm_cons, known_val
+from common import at_log_levels
 import a2
 
 SSB = "flipdot_serial::serial_sign_bus::SerialSignBus"
@@ -86,12 +87,19 @@ def serial_bus_paths(prog, log_on):
     return units, fn, ev, paths, port_i
 
 
+@at_log_levels("flipdot_core", "flipdot_serial")
 def run_c16(chk, prog):
     chk.notes.append("A2: every path of <SerialSignBus<P> as SignBus>::process_message is enumerated with Frame::write / Frame::read / the two From impls kept as "
                      "protocol-level units (each analysed on its own: C15, C01, C04/C05); rules over the ordered port effects of each path. The units Frame::write and "
                      "Frame::read ('exactly that frame's encoding with CRLF', 'exactly one line', errors surfaced) are C15's subject; its rule set is run here too as C16.io(..).")
     n = chk.include("C16.io", run_c15, prog)
     chk.floor("C16.io", "obligations on Frame::write / Frame::read", n, 15)
+    # "that message's frame encoding" / "its decoding": the frame <-> bytes codec (C01) and the message <-> frame mapping (C04, C05)
+    import p_frame, p_msgmap
+    n = chk.include("C16.codec", p_frame.run_c01, prog)
+    n += chk.include("C16.msg", p_msgmap.run_c04, prog)
+    n += chk.include("C16.msg", p_msgmap.run_c05, prog, keep=lambda r: not r.startswith("C05.wire"))
+    chk.floor("C16.codec", "obligations of the codec and message-mapping legs (C01, C04, C05)", n, 200)
     kinds_read = set()
     kinds_noread = set()
     for log_on in (False, True):
@@ -163,9 +171,39 @@ def run_c16(chk, prog):
     chk.note_analysed("functions", [fn["name"]] + sorted(ev.stats["inlined"]))
 
 
+@at_log_levels("flipdot_core", "flipdot_serial")
 def run_c18(chk, prog):
     chk.notes.append("A2: on every path of SerialSignBus::process_message the thread::sleep effects are located relative to the write, the read and the reply "
                      "conversion; durations are folded from Duration::from_* constants. Lower bounds only (longer delays are accepted).")
+    # the bus is analysed with Frame::write / Frame::read / the two conversions as units: "written" means Frame::write returned Ok
+    # having done nothing but write_all(encoding) (C15), and which replies count as in-progress reports is the frame -> message
+    # table (C04); both are legs of this property
+    import p_msgmap
+    n = chk.include("C18.io", run_c15, prog)
+    n += chk.include("C18.msg", p_msgmap.run_c04, prog)
+    chk.floor("C18.units", "obligations on the units the pacing rule treats as atomic (C15, C04)", n, 60)
+    # the pause follows `frame.write(..)?`: if Frame::write could fail after the frame is completely out (a fallible step after
+    # write_all), a written data chunk would be followed by an early return without the pause
+    units0 = a2.Units(prog)
+    wr = one(units0.frame_write, "Frame::write")
+    wev = Evaluator(prog, Models(prog), no_inline=lambda f: f["path"] in units0.names(units0.to_bytes_nl))
+    after = set()
+    nwp = 0
+    for p in wev.run(wr):
+        if p.kind != "return":
+            continue
+        nwp += 1
+        cs = [e for e in p.trace if e[0] == "call"]
+        uw = [e for e in cs if any(a2.mentions(x, lambda t: t == ("heap", "*writer", ())) for x in e[2])]
+        seen_write = False
+        for e in uw:
+            if seen_write:
+                after.add(e[1].split("::")[-1])
+            if e[1] == "std::io::Write::write_all":
+                seen_write = True
+    chk.ob("C18.O1", "Frame::write has no fallible step after write_all: once the frame is out it returns Ok, so the pause that follows `frame.write(..)?` is reached", not after,
+           key="write:tail-step", where=loc(wr["span"]), detail="after write_all: %s" % sorted(after))
+    chk.floor("C18.O1", "Frame::write returning paths examined for a step after the write", nwp, 2)
     n_send = n_recv = 0
     for log_on in (False, True):
         units, fn, ev, paths, port_i = serial_bus_paths(prog, log_on)
@@ -267,6 +305,7 @@ SETTERS = {
 }
 
 
+@at_log_levels("flipdot_serial", "flipdot_testing")
 def run_c20(chk, prog):
     chk.notes.append("A2 must-call / error-discipline: the closure passed to SerialPort::reconfigure is analysed path by path (every Ok path calls the five setters with the 19200-8N1-no-flow "
                      "constants on the closure's settings argument); configure_port and both constructors propagate every error and build their object only on the Ok edge.")
@@ -322,7 +361,7 @@ def run_c20(chk, prog):
             ok = ((rk == "Err" and is_err_of(rv, st[3])) or norm(p.value) == norm(st[3])) and len(names) == 2
             chk.ob("C20.O2", "a set_timeout error is returned", ok, key="cp:timeout-err", where=where, detail=fmt_term(p.value))
         else:
-            ok = rk == "Ok" and len(names) == 2 and d0 == 0 and d1 == 0
+            ok = (rk == "Ok" or norm(p.value) == norm(st[3])) and len(names) == 2 and d0 == 0 and d1 == 0
             chk.ob("C20.O2", "Ok(()) only after reconfigure and set_timeout both succeeded", ok, key="cp:ok-path", where=where, detail="%s -> %s" % (names, fmt_term(p.value)))
     chk.floor("C20.O2", "configure_port returning paths", nret, 2)
     # ---- the closure ---------------------------------------------------------------------------
@@ -423,6 +462,7 @@ def run_c20(chk, prog):
 # ======================================================================================
 # C15 : Frame::read / Frame::write
 # ======================================================================================
+@at_log_levels("flipdot_core")
 def run_c15(chk, prog):
     chk.notes.append("A2 on Frame::read<R> and Frame::write<W> (polymorphic MIR): the reader flows only into BufReader::with_capacity(1, ..), which is used exactly once by "
                      "read_until(b'\\n', fresh Vec); the result is from_bytes of that untouched Vec; the writer only sees write_all(to_bytes_with_newline()).")
@@ -515,6 +555,23 @@ def run_c15(chk, prog):
         rk, rv = result_shape(p.value)
         uses_writer = [e for e in cs if any(a2.mentions(x, lambda t: t == ("heap", "*writer", ())) for x in e[2])]
         enc = [e for e in cs if a2.classify_call(units, e) == "to_bytes_with_newline"]
+        # a `flush()` after the write is not part of delivering the frame but does no harm to it: accepted when its result is
+        # examined and its error surfaces as FrameError::Io (C18 has its own view of a step that can fail after the frame is out)
+        tail = uses_writer[1:]
+        if tail and uses_writer[0][1] == "std::io::Write::write_all" and all(e[1] == "std::io::Write::flush" for e in tail):
+            cons_ = norm_cons(p.cons)
+            okt = True
+            for i_, e in enumerate(tail):
+                dd = known_val(cons_, ("discr", norm(e[3])))
+                if dd is None and norm(p.value) == norm(e[3]) and e is tail[-1]:
+                    continue        # `writer.flush()` as the tail expression of a function returning io::Result is its own result
+                if dd is None or (dd == 1 and not (e is tail[-1] and rk == "Err" and rv[0] == "adt" and rv[3] == "Io" and is_err_of(rv, e[3]))):
+                    okt = False
+            chk.ob("C15.O6", "a flush after the write has its result examined and its error returned as FrameError::Io", okt, key="write:flush", where=where, detail=fmt_term(p.value))
+            flush_failed = any(known_val(cons_, ("discr", norm(e[3]))) == 1 for e in tail)
+            uses_writer = uses_writer[:1]
+            if flush_failed:
+                continue
         ok5 = len(uses_writer) == 1 and uses_writer[0][1] == "std::io::Write::write_all" and len(enc) == 1
         if ok5:
             wa = uses_writer[0]
@@ -579,6 +636,7 @@ def written_equals_encoding(prog, models, wr, enc_fn):
 # ======================================================================================
 # C17 : Odk bridge shape + three-way agreement on which kinds are answered
 # ======================================================================================
+@at_log_levels("flipdot_core", "flipdot_serial", "flipdot_testing", "flipdot")
 def run_c17(chk, prog):
     chk.notes.append("Decides two clauses only (DESIGN.md 4 C17): (a) the bridge shape of Odk::process_message by A2 effect-order rules; (b) agreement of the serial bus's read "
                      "classification, the virtual sign's reply table and the controller's expectations on which message kinds are answered. End-to-end state equality is the "
@@ -591,7 +649,7 @@ def run_c17(chk, prog):
     n = chk.include("C17.codec", p_frame.run_c01, prog)
     n += chk.include("C17.msg", p_msgmap.run_c04, prog)
     n += chk.include("C17.msg", p_msgmap.run_c05, prog, keep=lambda r: not r.startswith("C05.wire"))
-    n += chk.include("C17.bus", run_c16, prog, keep=lambda r: not r.startswith("C16.io"))
+    n += chk.include("C17.bus", run_c16, prog, keep=lambda r: not (r.startswith("C16.io") or r.startswith("C16.codec") or r.startswith("C16.msg")))
     chk.floor("C17", "obligations of the composed legs (codec, message mapping, serial bus)", n, 200)
     units = a2.Units(prog)
     models = Models(prog)
@@ -618,6 +676,10 @@ def run_c17(chk, prog):
         if not ok:
             continue
         rd = cs[0][1]
+        allowed = ("Frame::read", "Message::from(Frame)", "flipdot_core::sign_bus::SignBus::process_message", "Frame::from(Message)", "Frame::write")
+        chk.ob("C17.a", "the bridge reads exactly one frame per call", roles.count("Frame::read") == 1, key="odk:reads", where=where, detail=str(roles))
+        other = [r for r in roles if r not in allowed]
+        chk.ob("C17.a", "the bridge does nothing but read, convert, forward, convert, write", not other, key="odk:other-calls", where=where, detail=str(other[:3]))
         d = known_val(cons, ("discr", norm(rd[3])))
         chk.ob("C17.a", "the result of Frame::read is examined before anything else happens", d is not None, key="odk:read-result-dropped", where=where)
         if d is None:
